@@ -11,6 +11,11 @@
 //! * `gemm <header> <alpha> <beta> | A | B | C | bias` — integer-valued cases only: the f32 result
 //!   (exact for small integers) against the model's result over `Int`.
 //!
+//! * `pack a|b <MR|NR> <rows> <cols> …` — the real `packing::pack_a_block` / `pack_b_block` (verif
+//!   hook) on an index-valued, possibly strided/transposed matrix and a block at a non-zero
+//!   offset: slots in block coordinates + offset of every element, against `packASlots` /
+//!   `packBSlots` / `packAOffset` / `packBOffset` (T3 tie), plus a naive-loop oracle.
+//!
 //! and uncompared `# float …` / `# batch …` lines for real-valued and batched cases.
 //!
 //! Independent oracle (PROPFAIL), evaluated on the implementation's output for every case: naive
@@ -23,7 +28,7 @@ use hcommon::{Args, Out, Rng};
 use rten_gemm::verif::{self, TraceEv};
 use rten_gemm::{
     BiasVector, ColOffsets, GemmExecutor, GemmInputA, GemmInputB, GemmOptions, GemmUninitOptions,
-    Im2Col, PackedAMatrix, PackedBMatrix, RowOffsets,
+    Im2Col, PackedAMatrix, PackedBMatrix, QuantParams, RowOffsets,
 };
 use rten_tensor::prelude::*;
 use rten_tensor::NdTensorView;
@@ -85,6 +90,9 @@ struct Case {
     n: usize,
     out_len: usize,
     bias: BiasKind,
+    /// length of the zero-point vector passed for A / B (f32 kernels ignore the values)
+    a_quant: Option<usize>,
+    b_quant: Option<usize>,
     a_in: AIn,
     b_in: BIn,
     alpha: f32,
@@ -241,6 +249,8 @@ struct Data {
     b: Vec<f32>,    // kb × n row-major
     c0: Vec<f32>,   // out_len
     bias: Vec<f32>, // bias len
+    za: Vec<f32>,
+    zb: Vec<f32>,
 }
 
 fn gen_data(rng: &mut Rng, cs: &Case) -> Data {
@@ -264,6 +274,8 @@ fn gen_data(rng: &mut Rng, cs: &Case) -> Data {
         b: gen(cs.kb * cs.n, 7),
         c0: gen(cs.out_len, 50),
         bias: gen(blen, 99),
+        za: gen(cs.a_quant.unwrap_or(0), 3),
+        zb: gen(cs.b_quant.unwrap_or(0), 3),
     }
 }
 
@@ -337,6 +349,8 @@ fn run_impl_inner(kerns: &[Kern], cs: &Case, d: &Data, prior: &[f32]) -> Result<
         BiasKind::Row(_) => Some(BiasVector::Row(&d.bias[..])),
         BiasKind::Col(_) => Some(BiasVector::Column(&d.bias[..])),
     };
+    let a_quant = cs.a_quant.map(|_| QuantParams { zero_point: &d.za[..] });
+    let b_quant = cs.b_quant.map(|_| QuantParams { zero_point: &d.zb[..] });
     let mut out: Vec<f32> = prior.to_vec();
     let (alpha, beta, api) = (cs.alpha, cs.beta, cs.api);
     let exec = &kern.exec;
@@ -345,12 +359,12 @@ fn run_impl_inner(kerns: &[Kern], cs: &Case, d: &Data, prior: &[f32]) -> Result<
     let res = hcommon::catch(|| {
         pool(threads).install(|| match api {
             Api::Gemm => exec
-                .gemm(&mut out, a_input, b_input, GemmOptions { alpha, beta, bias, a_quant: None, b_quant: None })
+                .gemm(&mut out, a_input, b_input, GemmOptions { alpha, beta, bias, a_quant, b_quant })
                 .map(|_| ()),
             Api::Uninit => {
                 let uninit: &mut [MaybeUninit<f32>] =
                     unsafe { std::mem::transmute::<&mut [f32], &mut [MaybeUninit<f32>]>(&mut out[..]) };
-                exec.gemm_uninit(uninit, a_input, b_input, GemmUninitOptions { alpha, bias, a_quant: None, b_quant: None })
+                exec.gemm_uninit(uninit, a_input, b_input, GemmUninitOptions { alpha, bias, a_quant, b_quant })
                     .map(|_| ())
             }
         })
@@ -380,9 +394,11 @@ fn header(kerns: &[Kern], cs: &Case, b_row_stride1: bool) -> String {
         BIn::Packed(i) => pk(i),
         BIn::Im2Col => "o".to_string(),
     };
+    let q = |l: Option<usize>| l.map(|l| format!("q{l}")).unwrap_or("n".to_string());
     format!(
-        "{} {} {} {} {} {} {} {} {} {} {} {} {}",
-        k.id, k.mr, k.nr, cs.threads, cs.m, cs.ka, cs.kb, cs.n, cs.out_len, bias, a_in, b_in, b_row_stride1 as u8
+        "{} {} {} {} {} {} {} {} {} {} {} {} {} {} {}",
+        k.id, k.mr, k.nr, cs.threads, cs.m, cs.ka, cs.kb, cs.n, cs.out_len, bias, a_in, b_in, b_row_stride1 as u8,
+        q(cs.a_quant), q(cs.b_quant)
     )
 }
 
@@ -392,7 +408,8 @@ fn shape_ok(cs: &Case) -> bool {
         BiasKind::Row(l) => l == cs.n,
         BiasKind::Col(l) => l == cs.m,
     };
-    cs.ka == cs.kb && bias_ok && cs.out_len == cs.m * cs.n
+    let quant_ok = cs.a_quant.map(|l| l == cs.m).unwrap_or(true) && cs.b_quant.map(|l| l == cs.n).unwrap_or(true);
+    cs.ka == cs.kb && bias_ok && quant_ok && cs.out_len == cs.m * cs.n
 }
 
 /// Is the request valid (so that neither an error nor a panic is acceptable)?
@@ -467,6 +484,9 @@ fn run_case(out: &mut Out, kerns: &[Kern], rng: &mut Rng, cs: &Case) {
     out.bucket(&format!("a_in={}", match cs.a_in { AIn::Unpacked(l) => format!("unpacked/lay{l}"), AIn::Packed(_) => "prepacked".into() }));
     out.bucket(&format!("b_in={}", match cs.b_in { BIn::Unpacked(l) => format!("unpacked/lay{l}"), BIn::Packed(_) => "prepacked".into(), BIn::Im2Col => "im2col".into() }));
     out.bucket(if cs.api == Api::Uninit { "api=gemm_uninit" } else { "api=gemm" });
+    if cs.a_quant.is_some() || cs.b_quant.is_some() {
+        out.bucket("quant-params=passed");
+    }
     let is_valid = valid(cs);
     let run = run_impl(kerns, cs, &d, &prior);
     let run = match run {
@@ -593,6 +613,90 @@ fn run_batch(out: &mut Out, kerns: &[Kern], rng: &mut Rng, kern: usize, shapes: 
     out.case(&req, &ans, fail.as_deref(), true);
 }
 
+/// T3 tie: run the real `packing::pack_a_block::<f32, MR>` / `pack_b_block::<f32, NR>` on an
+/// index-valued matrix (element (r, c) holds r*cols + c + 1, padding is 0) stored with one of the
+/// five layouts, for the block `rows [rs, re) × cols [cs, ce)`, and print the slots in block
+/// coordinates plus the offset at which every block element was found.
+fn run_pack(out: &mut Out, kind: char, t: usize, mat: (usize, usize), lay: u8, rs: usize, re: usize, cs: usize, ce: usize) {
+    let (mr_, mc_) = mat;
+    let data: Vec<f32> = (0..mr_ * mc_).map(|i| (i + 1) as f32).collect();
+    let (buf, rstr, cstr) = lay_out(&data, mr_, mc_, lay, -1.0);
+    let v = view(&buf, mr_, mc_, rstr, cstr);
+    let (rows, cols) = (re - rs, ce - cs);
+    let req = format!("pack {kind} {t} {rows} {cols} mat={mr_}x{mc_} lay={lay} strides={rstr},{cstr} rs={rs} cs={cs}");
+    out.bucket(&format!("pack {kind} t={t}"));
+    out.bucket(&format!("pack {kind} lay={lay}"));
+    let res = hcommon::catch(|| {
+        if kind == 'a' { verif::pack_a_block_f32(t, v, rs..re, cs..ce) } else { verif::pack_b_block_f32(t, v, rs..re, cs..ce) }
+    });
+    let (packed, size_bytes, stride_bytes) = match res {
+        Err(p) => {
+            out.case(&req, &format!("panic:{p}"), Some(&format!("pack_{kind}_block panicked: {p}")), true);
+            return;
+        }
+        Ok(None) => {
+            out.case(&format!("# {req}"), "no-instantiation", None, false);
+            return;
+        }
+        Ok(Some(x)) => x,
+    };
+    let slot = |x: f32| -> String {
+        if x == 0.0 {
+            return "_".into();
+        }
+        let idx = x as i64 - 1;
+        if x.fract() != 0.0 || idx < 0 || idx as usize >= mr_ * mc_ {
+            return format!("bad({x})");
+        }
+        let (r, c) = (idx as usize / mc_, idx as usize % mc_);
+        if r < rs || r >= re || c < cs || c >= ce {
+            return format!("outside({r}.{c})");
+        }
+        format!("{}.{}", r - rs, c - cs)
+    };
+    let slots = hcommon::join(packed.iter().map(|x| slot(*x)), ",");
+    let mut offs = vec![];
+    for r in rs..re {
+        for c in cs..ce {
+            let want = (r * mc_ + c + 1) as f32;
+            offs.push(match packed.iter().position(|x| *x == want) {
+                Some(p) => p.to_string(),
+                None => "missing".to_string(),
+            });
+        }
+    }
+    // independent oracle: naive loops over (panel, lane, k)
+    let mut expect: Vec<f32> = vec![];
+    if kind == 'a' {
+        for p in 0..rows.div_ceil(t) {
+            for j in 0..t {
+                for c in 0..cols {
+                    let r = p * t + j;
+                    expect.push(if r < rows { ((rs + r) * mc_ + cs + c + 1) as f32 } else { 0.0 });
+                }
+            }
+        }
+    } else {
+        for p in 0..cols.div_ceil(t) {
+            for r in 0..rows {
+                for j in 0..t {
+                    let c = p * t + j;
+                    expect.push(if c < cols { ((rs + r) * mc_ + cs + c + 1) as f32 } else { 0.0 });
+                }
+            }
+        }
+    }
+    let mut fail = None;
+    if expect != packed {
+        let at = expect.iter().zip(&packed).position(|(a, b)| a != b);
+        fail = Some(format!("packed block differs from the panel layout (len {} vs {}, first difference at slot {:?})", packed.len(), expect.len(), at));
+    } else if size_bytes != packed.len() * 4 {
+        fail = Some("layout size does not match the packed length".to_string());
+    }
+    let ans = format!("len={} stride={} slots={} off={}", packed.len(), stride_bytes / 4, slots, offs.join(","));
+    out.case(&req, &ans, fail.as_deref(), true);
+}
+
 fn pick_dim(rng: &mut Rng, max: usize, specials: &[usize]) -> usize {
     match rng.below(10) {
         0 => 0,
@@ -644,7 +748,7 @@ fn main() {
                             1 => BiasKind::Row(n),
                             _ => BiasKind::Col(m),
                         };
-                        let cs = Case { kern, threads: 1, m, ka: k, kb: k, n, out_len: m * n, bias,
+                        let cs = Case { kern, threads: 1, m, ka: k, kb: k, n, out_len: m * n, bias, a_quant: None, b_quant: None,
                             a_in: AIn::Unpacked(((m + k) % 5) as u8), b_in: BIn::Unpacked(((n + k) % 5) as u8),
                             alpha: -3.0, beta: *beta, int_mode: true, api: Api::Gemm, tag: "tiny-exhaustive" };
                         run_case(&mut out, &kerns, &mut rng, &cs);
@@ -695,6 +799,8 @@ fn main() {
         let mut cs = Case {
             kern, threads, m, ka: k, kb: k, n, out_len: m * n,
             bias: match rng.below(3) { 0 => BiasKind::None, 1 => BiasKind::Row(n), _ => BiasKind::Col(m) },
+            a_quant: if rng.chance(1, 10) { Some(m) } else { None },
+            b_quant: if rng.chance(1, 10) { Some(n) } else { None },
             a_in: if rng.chance(1, 5) { AIn::Packed(kern) } else { AIn::Unpacked(rng.below(5) as u8) },
             b_in: match rng.below(8) { 0 => BIn::Packed(kern), 1 => BIn::Im2Col, _ => BIn::Unpacked(rng.below(5) as u8) },
             alpha: if int_mode { *rng.pick(&int_alphas) } else { *rng.pick(&alphas) },
@@ -709,7 +815,9 @@ fn main() {
         // malformed requests
         if rng.chance(1, 25) {
             cs.tag = "malformed";
-            match rng.below(5) {
+            match rng.below(7) {
+                5 => cs.a_quant = Some(cs.m + 1 + rng.usize_below(2)),
+                6 => cs.b_quant = Some((cs.n + 2).saturating_sub(1 + 2 * rng.usize_below(2))),
                 0 => cs.kb = cs.ka + 1 + rng.usize_below(2),
                 1 => cs.out_len = (cs.m * cs.n + 1 + rng.usize_below(3)).saturating_sub(rng.usize_below(3) * 2),
                 2 => cs.bias = BiasKind::Row(cs.n + 1),
@@ -726,6 +834,22 @@ fn main() {
             }
         }
         run_case(&mut out, &kerns, &mut rng, &cs);
+    }
+
+    // 2b. packing (T3 tie): every tile size of the kernels on this host plus odd ones.
+    let n_pack = if args.thorough { 20000 } else { 3000 };
+    for _ in 0..n_pack {
+        let kind = if rng.chance(1, 2) { 'a' } else { 'b' };
+        let t = if kind == 'a' { *rng.pick(&[1usize, 2, 3, 4, 5, 6, 6, 7, 8, 8]) } else { *rng.pick(&[1usize, 2, 3, 4, 4, 5, 8, 16, 16, 32, 32]) };
+        let (rows, cols) = if kind == 'a' {
+            (1 + rng.usize_below(3 * t + 2), 1 + rng.usize_below(20))
+        } else {
+            (1 + rng.usize_below(20), 1 + rng.usize_below(if t >= 16 { 2 * t + 3 } else { 3 * t + 3 }))
+        };
+        let rs = if rng.chance(1, 2) { 0 } else { rng.usize_below(6) };
+        let cs = if rng.chance(1, 2) { 0 } else if kind == 'b' && rng.chance(1, 2) { t * (1 + rng.usize_below(2)) } else { rng.usize_below(7) };
+        let mat = (rs + rows + rng.usize_below(3), cs + cols + rng.usize_below(3));
+        run_pack(&mut out, kind, t, mat, rng.below(5) as u8, rs, rs + rows, cs, cs + cols);
     }
 
     // 3. batched calls.
